@@ -346,6 +346,11 @@ def compute_feats_from_kaldi_tables(args: Optional[Sequence[str]] = None) -> Non
         for preprocessor in preprocessors:
             buff = preprocessor.apply(buff, in_place=True)
         feats = computer.compute_full(buff)
+        if len(feats):
+            # an utterance too short for a single frame is written as an empty matrix,
+            # which has nothing to post-process (and Standardize refuses empty input)
+            for postprocessor in postprocessors:
+                feats = postprocessor.apply(feats, in_place=True)
         if not KaldiDataType.BaseMatrix.is_double:
             feats = feats.astype(np.float32)
         feat_writer.write(utt_id, feats)
